@@ -420,4 +420,5 @@ def run(rep, tier):
         # that reach every final shift total exactly half an output unit
         from ..engines import roundbudget, simd_rules
         rep.call(simd_rules.f64_accumulate, rep, prog, "C01.f64-accumulate", {"x86": 100, "x86-rayon": 100}.get(cfg, 8))
+        rep.call(simd_rules.arith_shift, rep, prog, "C01.arith-shift", {"x86": 30, "x86-rayon": 30, "arm": 20, "wasm": 5}.get(cfg, 5))
         rep.call(roundbudget.budget, rep, prog, "C01.round-budget", {"x86": 110, "arm": 60, "wasm": 55}.get(cfg, 40))
